@@ -22,8 +22,9 @@ pub enum Tr {
     AbortTask(Path),
     // ---- leaf level (L1 invariants)
     FirstPoll(Path),
-    Got(Path, u32),
-    Item(Path, u32),
+    /// (leaf, nonce, digest of the whole value received)
+    Got(Path, u32, u32),
+    Item(Path, u32, u32),
     StreamEnd(Path),
     LeafDropped(Path),
     Emit(Path, u16),
